@@ -91,6 +91,13 @@ CLAIMED = {
         design="DESIGN.md §4 C11"),
 }
 
+# sentences added to a claim after its first version (rules added later); appended to the claim text
+EXTRA = {
+    "C03": "Also decided: the next-step constructor that takes an end time differs from the one that does not in nothing but m_end_time (the last state of a schedule is built without one).",
+    "C06": "Also decided: every connection selector of Well.cpp (WPIMULT, WELOPEN, COMPLUMP, WINJCLN, ...) compares the connection's I/J/K/completion number with the record item of that name, lower bounds with match_ge and upper bounds with match_le.",
+    "C11": "Also decided: a process-local pointer that the owner's serializeOp re-binds after unpacking (Well::unit_system in Schedule::serializeOp) is re-bound in every instance - the call sits in range-for loops over the whole containers.",
+}
+
 NOT_APPLICABLE = {
     "C01": "re-layout invariance relates the parser's outputs on two runtime strings; no structural clause is a necessary condition that static analysis can decide without a brittle text match (DESIGN.md §6)",
     "C14": "numerical statements about interpolation over user tables (node values, bracketing, continuity, saturation-pressure inversion); nothing in the shape of the code decides them (DESIGN.md §6)",
@@ -116,7 +123,7 @@ def main():
                 evidence_file="/verif/evidence/%s.json" % pid,
                 replay_cmd_template="./check %s --tier quick --replay {path}" % pid,
                 engine="opmfacts+rules",
-                level_claimed=dict(category=c.get("category", "other"), text=c["text"], design_ref=c["design"]),
+                level_claimed=dict(category=c.get("category", "other"), text=(c["text"] + " " + EXTRA.get(pid, "")).strip(), design_ref=c["design"]),
                 level_note=c["note"],
                 technique=c["technique"],
             ))
